@@ -258,9 +258,9 @@ func genC10(o *vcoq.Out, r *vcoq.Rand, tier string) error {
 	o.Shard = 40
 	o.Rule = "distinct (script of controller actions with all observations) for KScript/KPipe, distinct end-of-run record for free-running cases; non-trivial = at least one cancel inside a Send/stop window, or a blocked writer, or a receive racing a close"
 	g := &gen{o: o, r: r, tier: tier}
-	nScript, nPipe, nFree := 700, 500, 60
+	nScript, nPipe, nFree := 2500, 1500, 160
 	if tier == "thorough" {
-		nScript, nPipe, nFree = 9000, 6000, 700
+		nScript, nPipe, nFree = 30000, 18000, 2000
 	}
 	defer verifhook.Set(nil)
 	for i := 0; i < nScript; i++ {
